@@ -15,7 +15,7 @@ KINDS = ["member_order", "compression", "form", "rechunk", "list_perm", "offsets
 def gen_relayout(rng) -> dict:
     kinds = [k for k in KINDS if rng.random() < 0.45] or [rng.choice(KINDS)]
     return {"kinds": kinds, "seed": rng.getrandbits(32), "form": rng.choice(["file", "pkgzip", "pkgloose"]),
-            "chunk": rng.choice([1, 2, 7, 64, 1000, 4096, 65535, 65536, "ragged"]), "offset_mode": rng.choice(["narrow", "wide", "flip"]),
+            "chunk": rng.choice([1, 2, 7, 64, 1000, 4096, 65535, 65536, "ragged", 200_000, 1_000_000, "whole"]), "offset_mode": rng.choice(["narrow", "wide", "flip"]),
             "per_row": rng.choice([1.0, 0.5, 0.5, 0.2])}
 
 
@@ -144,14 +144,19 @@ def apply_relayout(path: str, spec: dict) -> dict:
             sizes = None
             if rechunk:
                 ch = spec["chunk"]
-                sizes = [rng.choice([1, 3, 17, 255, 256, 4096, 65536]) for _ in range(8)] if ch == "ragged" else [int(ch)]
+                if ch == "ragged":
+                    sizes = [rng.choice([1, 3, 17, 255, 256, 4096, 65536]) for _ in range(8)]
+                elif ch == "whole":
+                    sizes = [(1 << 24) - 4096]
+                else:
+                    sizes = [int(ch)]
                 # 1-byte chunks of a big archive cost too much: bound the number of chunks
                 raw_len = sum(len(p) for s in pkg.streams[name] for p in s.payloads)
                 if raw_len // max(1, min(sizes)) > 20_000:
                     sizes = [max(sizes[0], raw_len // 20_000 + 1)]
                 n_rechunk += 1
             # always snappy-compressed: a stored chunk cannot be told from a compressed one by any reader
-            pkg.rebuild_member(name, sizes, compress=True)
+            pkg.rebuild_member(name, sizes, compress=True, max_chunk=(1 << 24) - 4096)
     done["members_rechunked"] = n_rechunk
     done["members_reencoded"] = len(touched_members)
 
